@@ -293,11 +293,11 @@ func (p *prog) scalar() (op rlwe.Operand, kind string, val uint64, absC *big.Int
 		op, b = u, bi(u)
 	case 2:
 		kind = "int64"
-		i := eng.Pick(r, 0, 1, -1, -2, -int64(t), -int64(t) - 1, -int64(t / 2), math.MinInt64, math.MaxInt64, int64(r.U64()), int64(r.U64()%t), -int64(r.U64()%t))
+		i := eng.Pick(r, 0, 1, -1, -2, -int64(t), -int64(t)-1, -int64(t/2), math.MinInt64, math.MaxInt64, int64(r.U64()), int64(r.U64()%t), -int64(r.U64()%t))
 		op, b = i, big.NewInt(i)
 	default:
 		kind = "int"
-		i := eng.Pick(r, 0, 1, -1, 5, -int64(t), -int64(t) - 1, math.MinInt64, math.MaxInt64, int64(r.U64()), -int64(r.U64()%t))
+		i := eng.Pick(r, 0, 1, -1, 5, -int64(t), -int64(t)-1, math.MinInt64, math.MaxInt64, int64(r.U64()), -int64(r.U64()%t))
 		op, b = int(i), big.NewInt(i)
 	}
 	val = modT(b, t)
